@@ -7,6 +7,7 @@ import (
 
 	"golang.org/x/tools/go/ssa"
 
+	"verif/checker/flow"
 	"verif/checker/ir"
 )
 
@@ -18,11 +19,11 @@ import (
 //   R-unguarded    such a field for which no access holds any mutex at all
 func init() { Registry["C20"] = checkC20 }
 
-// c20Exceptions: fields whose unsynchronised accesses are ordered by another mechanism; each has a
-// side condition that is checked on every run.
-var c20Exceptions = map[string]string{
-	"sseClientTransport.endpoint": "publish-by-close: written before close(endpointChan), read only after the receive from it / started flag (side condition checked: every write is followed by the close in the same function)",
-}
+// The one recognised idiom for an unsynchronised field ("publish by close"): the field is written in exactly one
+// function, that function is a closure run by (*sync.Once).Do, and the same closure closes a channel held in a field
+// of the same struct after the write. Readers wait for that channel (directly or through a started flag) before they
+// read. The conditions on the writer are checked on every run for every field that would otherwise be reported.
+const publishByCloseReason = "publish-by-close: written once inside a sync.Once closure that then closes a latch channel of the same struct; read only after the latch"
 
 func concurrentStruct(T *types.Named) bool {
 	if T == nil {
@@ -136,12 +137,8 @@ func checkC20(c *Ctx) {
 			}
 		}
 		nFields++
-		if reason, ok := c20Exceptions[g.Field]; ok {
-			if publishByClose(c, g) {
-				c.R.Hold("R-exception", g.Field, c.Pos(g.Accesses[0].Pos), reason)
-				continue
-			}
-			c.R.Violate("R-exception", g.Field, c.Pos(g.Accesses[0].Pos), "side condition of exception no longer holds: "+reason)
+		if g.Guard == "" && publishByClose(c, g) {
+			c.R.Hold("R-exception", g.Field, c.Pos(g.Accesses[0].Pos), publishByCloseReason)
 			continue
 		}
 		if g.Guard == "" {
@@ -185,30 +182,50 @@ func checkC20(c *Ctx) {
 	}
 }
 
-// publishByClose: every write of the field is, in its function, followed on all paths by a
-// close(...) of a channel (the publication), and the field is written in exactly one function.
+// publishByClose: see publishByCloseReason.
 func publishByClose(c *Ctx, g *FieldGuard) bool {
-	fns := map[*ssa.Function]bool{}
+	var w *ssa.Function
+	var writes []Access
 	for _, a := range g.Accesses {
 		if a.Write {
-			fns[a.Fn] = true
+			if w != nil && w != a.Fn {
+				return false
+			}
+			w = a.Fn
+			writes = append(writes, a)
 		}
 	}
-	if len(fns) != 1 {
+	if w == nil || w.Parent() == nil {
 		return false
 	}
-	for _, a := range g.Accesses {
-		if !a.Write {
-			continue
+	// w is the closure handed to a (*sync.Once).Do in its parent
+	once := false
+	ir.EachInstr(w.Parent(), func(_ *ssa.BasicBlock, _ int, in ssa.Instruction) {
+		call, ok := in.(*ssa.Call)
+		if !ok || ir.CallName(call) != "(*sync.Once).Do" || len(call.Call.Args) < 2 {
+			return
 		}
-		closes := false
-		ir.EachCall(a.Fn, func(call ssa.CallInstruction) {
-			n := ir.CallName(call)
-			if n == "builtin.close" || n == "(*sync.Once).Do" {
-				closes = true
+		if mc, ok := call.Call.Args[1].(*ssa.MakeClosure); ok && mc.Fn == ssa.Value(w) {
+			once = true
+		}
+	})
+	if !once {
+		return false
+	}
+	// every write is followed, in w, by a close of a channel field of the same struct
+	for _, a := range writes {
+		ok := false
+		ir.EachInstr(w, func(_ *ssa.BasicBlock, _ int, in ssa.Instruction) {
+			call, isCall := in.(*ssa.Call)
+			if !isCall || ir.CallName(call) != "builtin.close" {
+				return
+			}
+			f, _, isField := ir.LoadedField(call.Call.Args[0])
+			if isField && f.Struct != nil && ir.TypeKey(f.Struct) == ir.TypeKey(g.OwnerT) && flow.Dominates(a.Instr, call) {
+				ok = true
 			}
 		})
-		if !closes {
+		if !ok {
 			return false
 		}
 	}
